@@ -18,6 +18,8 @@ run_demo() { (cd "$wt" && PYTHONPATH="$wt" timeout 300 /venv/bin/python "$src/de
 run_demo; clean_rc=$?
 git -C "$wt" apply "$src/patch.diff" || { echo "$sid: PATCH DOES NOT APPLY to HEAD"; exit 4; }
 tests=$(cd "$wt" && PYTHONPATH="$wt" timeout 900 /venv/bin/python -m pytest -q -p no:cacheprovider --timeout=900 2>&1 | tail -1)
+# the pinned suite has a rare random flake: one retry before a seed is judged to break it
+echo "$tests" | grep -q "81 passed" || tests=$(cd "$wt" && PYTHONPATH="$wt" timeout 900 /venv/bin/python -m pytest -q -p no:cacheprovider --timeout=900 2>&1 | tail -1)
 run_demo; mut_rc=$?
 demo_tail=$(tail -3 /tmp/vs-demo.out | tr '\n' ' ' | cut -c1-300)
 echo "$sid: demo clean rc=$clean_rc, mutated rc=$mut_rc; tests: $tests"
